@@ -167,7 +167,7 @@ def str_(x='', *a):
 def len_(x):
     if isinstance(x, SymStr):
         ex = symx.cur()
-        n = tm.var(ex.fresh_name('len'), 'I')
+        n = tm.var(ex.fresh_name('len', x.ident), 'I')
         ex.assume(tm.and_(tm.le(tm.I(0), n), tm.eq(tm.eq(n, tm.I(0)), x.empty)))
         return SymInt(n)
     hook = getattr(type(x), '__hv_len__', None)
@@ -383,7 +383,9 @@ def strmeth(const, name, args, kwargs):
 def getitem(a, b):
     if isinstance(b, SymEnum) and isinstance(a, dict):
         return a[b.concretize()]
-    if isinstance(b, SymInt) and isinstance(a, (list, tuple, str)):
+    if isinstance(b, SymInt) and isinstance(a, (list, tuple, str, dict)):
+        return a[symx.cur().concretize(b.term)]
+    if isinstance(b, SymBool) and isinstance(a, (list, tuple, dict)):
         return a[symx.cur().concretize(b.term)]
     if isinstance(b, SymStr) and isinstance(a, (dict,)) :
         raise Unsupported('dict lookup by opaque string')
